@@ -125,7 +125,10 @@ def shape(e, roles=None, depth=20):
             if kind == "into":
                 return inner
             return inner
-        return "%s(%s)" % (callee_id(e.t), ",".join(shape(a, roles, depth - 1) for a in e.args))
+        cid = callee_id(e.t)
+        if nice(c) in ("Index::index", "IndexMut::index_mut") and len(e.args) == 2:
+            return "%s[%s]" % (shape(e.args[0], roles, depth - 1), shape(e.args[1], roles, depth - 1))
+        return "%s(%s)" % (cid, ",".join(shape(a, roles, depth - 1) for a in e.args))
     if isinstance(e, Unknown):
         return "?%s" % e.what
     return "?"
